@@ -57,11 +57,18 @@ func TestJSXTiming(t *testing.T) {
 		tot += len(r.e1)
 	}
 	fmt.Println("transform", timeSince(t0), "bytes", tot)
+	c0, _ := cpuTimes()
+	fmt.Println("cpu self so far", c0)
 	t0 = timeNow()
 	for lo := 0; lo+6 <= len(cases); lo += 6 {
 		judgeJSX(cases[lo : lo+6])
 	}
 	fmt.Println("judge", timeSince(t0))
+	c1, _ := cpuTimes()
+	fmt.Println("cpu self total", c1)
+	W.Close()
+	_, ch := cpuTimes()
+	fmt.Println("cpu children", ch)
 }
 
 func TestJSXTiming2(t *testing.T) {
@@ -90,4 +97,26 @@ func TestJSXTiming2(t *testing.T) {
 		moduleTrace(`import {jsx} from "react/jsx-runtime"; log("r", jsx("a", {}));`)
 	}
 	fmt.Println("50 module calls:", timeSince(t0))
+}
+
+func TestJSXKnownDebug(t *testing.T) {
+	path := os.Getenv("JSXKNOWN")
+	if path == "" {
+		t.Skip()
+	}
+	setup(t)
+	defer W.Close()
+	r, err := vdrvLoad(path)
+	if err != nil {
+		t.Fatal(err)
+	}
+	for _, k := range jsxKnownShapes {
+		fmt.Println(k.id, "applies:", k.applies(r))
+		if k.applies(r) {
+			v2 := judgeJSXRaw([]JSXCase{k.without(r)})[0]
+			fmt.Println("  without: ok", v2.OK, "discard", v2.Discard, "detail", v2.Detail)
+		}
+	}
+	v := judgeJSX([]JSXCase{r})[0]
+	fmt.Println("known:", v.Known, "ok:", v.OK, v.Detail)
 }
